@@ -38,7 +38,7 @@ theorem save_at_run (cfg : Cfg K σ) (eps : K) (fuelA fuelR u : Nat) (t0 : K) (t
      (chainR_of_pairwise t0 ts hs) h).2.1⟩
 
 /-- `solve_adaptive_terminal_values` is `solve_adaptive_save_at` on `[t0, t1]` -/
-theorem terminal_is_save_at (cfg : Cfg K σ) (eps : K) (fuelA fuelR u : Nat) (t0 t1 dt0 : K) (y : SolState K)
+theorem terminal_is_save_at (cfg : Cfg K σ) (eps : K) (fuelA fuelR u : Nat) (t0 t1 dt0 : K) (y : LSolState K)
     (st : TimeStepState K σ) (h : cfg.solveTerminal fuelA fuelR u t0 t1 dt0 eps = some (y, st)) :
     ∃ s0, cfg.solveSaveAt fuelA fuelR u [t0, t1] dt0 eps = some { solution0 := s0, solution := [y], final := st } := by
   unfold Cfg.solveTerminal at h
@@ -48,7 +48,7 @@ theorem terminal_is_save_at (cfg : Cfg K σ) (eps : K) (fuelA fuelR u : Nat) (t0
     exact ⟨s0, heq⟩
   · cases h
 
-theorem terminal_run (cfg : Cfg K σ) (eps : K) (fuelA fuelR u : Nat) (t0 t1 dt0 : K) (y : SolState K)
+theorem terminal_run (cfg : Cfg K σ) (eps : K) (fuelA fuelR u : Nat) (t0 t1 dt0 : K) (y : LSolState K)
     (st : TimeStepState K σ) (h : cfg.solveTerminal fuelA fuelR u t0 t1 dt0 eps = some (y, st)) :
     Run cfg eps AnyT (cfg.solver.init t0 u) dt0 t0 st ∧
     (t0 ≤ t1 → Run cfg eps (· ≤ ·) (cfg.solver.init t0 u) dt0 t0 st) := by
@@ -90,7 +90,7 @@ theorem loop_seq_run (cfg : Cfg K σ) (eps : K) (fuelR u : Nat) (t0 : K) (target
 those attempts whose `error_power` was not `< 1` (`accSum`); rejected attempts and interpolations contribute
 nothing. -/
 theorem accepted_only (cfg : Cfg K σ) (hlaws : SolverLaws cfg.solver) (hseed : cfg.seed < 1) {eps : K}
-    {R : K → K → Prop} {sol0 : SolState K} {dt0 t0 : K} {s : TimeStepState K σ}
+    {R : K → K → Prop} {sol0 : LSolState K} {dt0 t0 : K} {s : TimeStepState K σ}
     (h : Run cfg eps R sol0 dt0 t0 s) : s.stepFrom.t = sol0.t + accSum s.trace := by
   obtain ⟨_, hr⟩ := h
   exact (hr.sums hlaws hseed sol0.t sol0.numSteps (sums_init cfg sol0 dt0)).time
@@ -118,7 +118,7 @@ theorem step_accepts (cfg : Cfg K σ) (hseed : cfg.seed < 1) (fuel : Nat) (s s' 
 /-- **num_steps_eq_accepted.**  The step counter of `step_from` is the initial counter plus the number of accepted
 attempts, and every solution handed back carries the number of attempts accepted before it was handed back. -/
 theorem num_steps_eq_accepted (cfg : Cfg K σ) (hlaws : SolverLaws cfg.solver) (hseed : cfg.seed < 1) {eps : K}
-    {R : K → K → Prop} {sol0 : SolState K} {dt0 t0 : K} {s : TimeStepState K σ}
+    {R : K → K → Prop} {sol0 : LSolState K} {dt0 t0 : K} {s : TimeStepState K σ}
     (h : Run cfg eps R sol0 dt0 t0 s) :
     s.stepFrom.numSteps = sol0.numSteps + accCount s.trace ∧ OutputsOK sol0.numSteps s.trace := by
   obtain ⟨_, hr⟩ := h
@@ -143,7 +143,7 @@ theorem reject_preserves_state (cfg : Cfg K σ) (t1 : K) (fuel : Nat) (r r' : Re
 the attempt `step_attempt` makes from the *same* `step_from` and the *same* error state with the controller's new
 proposal and state (so nothing else — no interpolation, no output, no state change — happens in between), and a
 run never rests on a rejected attempt.  `interp_from` is covered by `step_accepts`. -/
-theorem rejected_then_same_state (cfg : Cfg K σ) {eps : K} {R : K → K → Prop} {sol0 : SolState K} {dt0 t0 : K}
+theorem rejected_then_same_state (cfg : Cfg K σ) {eps : K} {R : K → K → Prop} {sol0 : LSolState K} {dt0 t0 : K}
     {s : TimeStepState K σ} (h : Run cfg eps R sol0 dt0 t0 s) :
     (∀ pre post e2 a1, s.trace = pre ++ e2 :: Event.attempt a1 :: post → a1.ep < 1 →
       e2 = Event.attempt (cfg.mkAttempt a1.t1 a1.src a1.esIn a1.dtNew a1.cOut)) ∧
@@ -161,7 +161,7 @@ the same state. -/
 theorem reject_then_smaller (cfg : Cfg K σ) (hlaws : SolverLaws cfg.solver) (hseed : cfg.seed < 1)
     (Inv : σ → Prop) (hpos : CtlPos cfg.ctl) (hinv : CtlInv cfg.ctl Inv) (hshrink : CtlShrinks cfg.ctl Inv)
     (hest : ∀ es a b dt, 0 ≤ (cfg.est.estimate es a b dt).1)
-    {eps : K} (heps : 0 ≤ eps) {R : K → K → Prop} {sol0 : SolState K} {dt0 t0 : K} (hdt0 : 0 < dt0)
+    {eps : K} (heps : 0 ≤ eps) {R : K → K → Prop} {sol0 : LSolState K} {dt0 t0 : K} (hdt0 : 0 < dt0)
     {s : TimeStepState K σ} (h : Run cfg eps R sol0 dt0 t0 s) :
     ∀ pre post e2 a1, s.trace = pre ++ e2 :: Event.attempt a1 :: post → a1.ep < 1 →
       ∃ a2, e2 = Event.attempt a2 ∧ a2.src = a1.src ∧ a2.t1 = a1.t1 ∧ a2.dt ≤ a1.dtNew ∧ a1.dtNew < a1.dt ∧
@@ -185,7 +185,7 @@ theorem reject_then_smaller (cfg : Cfg K σ) (hlaws : SolverLaws cfg.solver) (hs
 /-- **proposal_in_bounds.**  Every proposal made in a run is the attempted step times a factor inside the
 controller's `[factor_min, factor_max]`. -/
 theorem proposal_in_bounds (cfg : Cfg K σ) (fmin fmax : K) (hb : CtlBounded cfg.ctl fmin fmax) {eps : K}
-    {R : K → K → Prop} {sol0 : SolState K} {dt0 t0 : K} {s : TimeStepState K σ}
+    {R : K → K → Prop} {sol0 : LSolState K} {dt0 t0 : K} {s : TimeStepState K σ}
     (h : Run cfg eps R sol0 dt0 t0 s) :
     ∀ a, Event.attempt a ∈ s.trace → ∃ f, fmin ≤ f ∧ f ≤ fmax ∧ a.dtNew = f * a.dt := by
   intro a ha
@@ -198,7 +198,7 @@ theorem proposal_in_bounds (cfg : Cfg K σ) (fmin fmax : K) (hb : CtlBounded cfg
 positive for admissible parameters). -/
 theorem proposal_ratio_in_bounds (cfg : Cfg K σ) (hlaws : SolverLaws cfg.solver) (hseed : cfg.seed < 1)
     (fmin fmax : K) (hb : CtlBounded cfg.ctl fmin fmax) (hfmin : 0 < fmin)
-    {eps : K} (heps : 0 ≤ eps) {R : K → K → Prop} {sol0 : SolState K} {dt0 t0 : K} (hdt0 : 0 < dt0)
+    {eps : K} (heps : 0 ≤ eps) {R : K → K → Prop} {sol0 : LSolState K} {dt0 t0 : K} (hdt0 : 0 < dt0)
     {s : TimeStepState K σ} (h : Run cfg eps R sol0 dt0 t0 s) :
     ∀ a, Event.attempt a ∈ s.trace → 0 < a.dt ∧ fmin ≤ a.dtNew / a.dt ∧ a.dtNew / a.dt ≤ fmax := by
   intro a ha
@@ -222,7 +222,7 @@ theorem clip_arith (t dt t1 : K) : t + min dt (t1 - t) ≤ t1 := by
 /-- **clip_no_overshoot.**  With `clip_dt=True` no attempt of a run ends beyond the checkpoint the rejection loop
 was heading for. -/
 theorem clip_no_overshoot (cfg : Cfg K σ) (hlaws : SolverLaws cfg.solver) (hclip : cfg.clip = true) {eps : K}
-    {R : K → K → Prop} {sol0 : SolState K} {dt0 t0 : K} {s : TimeStepState K σ}
+    {R : K → K → Prop} {sol0 : LSolState K} {dt0 t0 : K} {s : TimeStepState K σ}
     (h : Run cfg eps R sol0 dt0 t0 s) :
     ∀ a, Event.attempt a ∈ s.trace → a.proposed.t ≤ a.t1 := by
   intro a ha
@@ -253,7 +253,7 @@ theorem reported_once_in_order (cfg : Cfg K σ) (hlaws : SolverLaws cfg.solver) 
 
 /-- the terminal value is reported within `eps` of `t1` -/
 theorem terminal_reported (cfg : Cfg K σ) (hlaws : SolverLaws cfg.solver) {eps : K} (heps : 0 ≤ eps)
-    (fuelA fuelR u : Nat) (t0 t1 dt0 : K) (y : SolState K) (st : TimeStepState K σ)
+    (fuelA fuelR u : Nat) (t0 t1 dt0 : K) (y : LSolState K) (st : TimeStepState K σ)
     (h : cfg.solveTerminal fuelA fuelR u t0 t1 dt0 eps = some (y, st)) : |y.t - t1| ≤ eps := by
   obtain ⟨s0, hs⟩ := terminal_is_save_at cfg eps fuelA fuelR u t0 t1 dt0 y st h
   have := (reported_once_in_order cfg hlaws heps fuelA fuelR u t0 [t1] dt0 _ hs).2.2
@@ -265,7 +265,7 @@ theorem terminal_reported (cfg : Cfg K σ) (hlaws : SolverLaws cfg.solver) {eps 
 at a time between the two states it interpolates, `interp_from.t ≤ t ≤ interp_to.t`, and `interp_from` never lies
 after `step_from`. -/
 theorem interp_between (cfg : Cfg K σ) (hlaws : SolverLaws cfg.solver) (hseed : cfg.seed < 1)
-    (hpos : CtlPos cfg.ctl) {eps : K} (heps : 0 ≤ eps) {sol0 : SolState K} {dt0 t0 : K} (hdt0 : 0 < dt0)
+    (hpos : CtlPos cfg.ctl) {eps : K} (heps : 0 ≤ eps) {sol0 : LSolState K} {dt0 t0 : K} (hdt0 : 0 < dt0)
     (ht0 : sol0.t ≤ t0) {s : TimeStepState K σ} (h : Run cfg eps (· ≤ ·) sol0 dt0 t0 s) :
     (∀ t1 f g, Event.interp 1 t1 f g ∈ s.trace → f.t ≤ t1 ∧ t1 ≤ g.t) ∧ s.interpFrom.t ≤ s.stepFrom.t := by
   obtain ⟨_, hr⟩ := h
